@@ -30,11 +30,13 @@ let read_file path =
 let pages : Model.byte list array ref = ref [||]
 let usize = ref 0
 let failing : (int, unit) Hashtbl.t = Hashtbl.create 16
+let zeroed : (int, unit) Hashtbl.t = Hashtbl.create 16
 let dbopen = ref false
 
 let pager (z : Model.z) : Model.byte list Model.res =
   let n = int_of_z z in
   if n < 1 || n > Array.length !pages || Hashtbl.mem failing n then Model.Err Model.EIO
+  else if Hashtbl.mem zeroed n then Model.Ok (List.map (fun _ -> Model.z2b Model.Z0) !pages.(n - 1))
   else Model.Ok !pages.(n - 1)
 
 (* Database.openPage memoised: [Model.openp pager U] is a pure function of the
@@ -65,7 +67,7 @@ let the_store z = if !store_model then openp_st z else openp z
 
 let load_image path keep_state =
   let s = read_file path in
-  Hashtbl.reset failing; Hashtbl.reset memo;
+  Hashtbl.reset failing; Hashtbl.reset zeroed; Hashtbl.reset memo;
   if !store_model then image := bytes_of_string s;
   if not keep_state then dbst := Model.init_state;
   let hb = bytes_of_string (String.sub s 0 (min 100 (String.length s))) in
@@ -280,6 +282,12 @@ let () =
       else if line = "store memo" then store_model := false
       else if line = "rlock" then (if !store_model then dbst := Model.rlock !dbst)
       else if line = "runlock" then ()
+      else if starts_with "zero " line then begin
+        Hashtbl.reset zeroed; Hashtbl.reset memo;
+        let a = String.sub line 5 (String.length line - 5) in
+        if a <> "-" then
+          List.iter (fun x -> Hashtbl.replace zeroed (int_of_string x) ()) (String.split_on_char ',' a)
+      end
       else if starts_with "fail " line then begin
         Hashtbl.reset failing; Hashtbl.reset memo;
         let a = String.sub line 5 (String.length line - 5) in
